@@ -347,8 +347,24 @@ def r2_set_order(ctx):
     n = 0
     seen = {}
     sorter = A.layer_sorter(repo)
+    # the signature analyser's use of its sets is decided by interpreting it under both iteration orders
+    an = A.argument_analyzer(repo)
+    from . import arganal
+
+    n_before = len(ctx.obs)
+    try:
+        arganal.law(ctx, "set-order", "registration-order")
+        analyser_decided = all(o.ok for o in ctx.obs[n_before:])
+        analyser_interpreted = True
+    except AnalysisError as e:
+        del ctx.obs[n_before:]
+        ctx.note(f"signature analyser not interpretable ({e}); its set-order sites are judged syntactically")
+        analyser_decided = analyser_interpreted = False
     for f, node, kind, name, discharged, why in sites:
         ctx.touch(f)
+        if f.cls is an and analyser_interpreted:
+            # reported (or cleared) by the interpretation-based obligations above
+            continue
         # S4: pairwise one-way comparison (enumerate + tail slice) is reported once, under its own key
         key_kind = kind
         if f is sorter and kind == "slice":
